@@ -71,3 +71,70 @@ UNIT = Unit(
         Fn(**K.BAR_FINISH),
     ],
 )
+
+
+# ---------------------------------------------------------------------------------------------
+# Public API glue (src/progress_bar.rs): every ProgressBar method that only locks the state and
+# forwards to a BarState method is verified to have exactly the effect of that method with the
+# documented arguments (finish -> AndLeave, finish_and_clear -> AndClear, abandon -> Abandon, ...,
+# reset -> Reset::All, reset_eta -> Reset::Eta, ...).  The callee is used through its contract only.
+import re as _re
+
+
+def _callee(name):
+    for it in UNIT.items:
+        if isinstance(it, Fn) and it.container == "BarState" and it.name == name:
+            return it
+    raise KeyError(name)
+
+
+def _glue_ensures(callee, subst):
+    out = []
+    for c in _callee(callee).ensures:
+        e = c.expr
+        if _re.search(r"\bnow\b", e):
+            continue          # the instant is read inside the glue function
+        e = e.replace("*old(self)", "@O@").replace("*final(self)", "@F@").replace("old(self)", "@O@").replace("final(self)", "@F@")
+        e = e.replace("@O@", "old(self).state").replace("@F@", "final(self).state")
+        for k, v in subst.items():
+            e = _re.sub(r"\b%s\b" % k, v, e)
+        out.append((c.label, e, c.props))
+    out.append(("C07-handle-position-untouched", "final(self).pos == old(self).pos"))
+    return out
+
+
+PB_DECL_RW = [Rw("R2", r"Arc<Mutex<BarState>>", "BarState"), Rw("R2", r"Arc<AtomicPosition>", "AtomicPosition"),
+              Rw("R2", r"Arc<Mutex<Option<Ticker>>>", "TickerHandle")]
+PB_REQ = [("target-wf", "old(self).state.draw_target.wf2()")]
+STATE = Rw("R2", r"self\s*\.state\(\)", "self.state", count="any")
+STR_ARG = [Rw("R15", r"impl Into<Cow<'static, str>>", "String")]
+INTO = Rw("R15", r"\.into\(\)", "", count="any")
+
+
+def _glue(name, callee, subst, sig=(), rw=(), extra=()):
+    return Fn("src/progress_bar.rs", "ProgressBar", name, sig_rewrites=[K.SELF_MUT] + list(sig), rewrites=[STATE] + list(rw),
+              requires=PB_REQ, ensures=_glue_ensures(callee, subst) + list(extra))
+
+
+UNIT.items += [
+    Raw("#[verifier::external_body]\nstruct TickerHandle { _p: core::marker::PhantomData<()> }\n"
+        "// R5: `on_finish.clone()` (derived Clone: a copy)\n#[verifier::external_body]\nfn clone_finish(f: &ProgressFinish) -> (r: ProgressFinish) ensures r == *f { unimplemented!() }\n"),
+    Decl("src/progress_bar.rs", "struct", "ProgressBar", rewrites=PB_DECL_RW),
+    _glue("finish", "finish_using_style", {"finish": "(ProgressFinish::AndLeave)"}),
+    _glue("finish_and_clear", "finish_using_style", {"finish": "(ProgressFinish::AndClear)"}),
+    _glue("abandon", "finish_using_style", {"finish": "(ProgressFinish::Abandon)"}),
+    _glue("finish_with_message", "finish_using_style", {"finish": "(ProgressFinish::WithMessage(msg))"}, sig=STR_ARG, rw=[INTO]),
+    _glue("abandon_with_message", "finish_using_style", {"finish": "(ProgressFinish::AbandonWithMessage(msg))"}, sig=STR_ARG, rw=[INTO]),
+    _glue("finish_using_style", "finish_using_style", {"finish": "(old(self).state.on_finish)"},
+          rw=[Rw("R5", r"state\.on_finish\.clone\(\)", "clone_finish(&state.on_finish)"), Rw("R2", r"let mut state = self\.state;", "let state = &mut self.state;")]),
+    _glue("reset", "reset", {"mode": "(Reset::All)"}),
+    _glue("reset_eta", "reset", {"mode": "(Reset::Eta)"}),
+    _glue("reset_elapsed", "reset", {"mode": "(Reset::Elapsed)"}),
+    _glue("set_length", "set_length", {}),
+    _glue("unset_length", "unset_length", {}),
+    _glue("inc_length", "inc_length", {}),
+    _glue("dec_length", "dec_length", {}),
+    Fn("src/progress_bar.rs", "ProgressBar", "is_finished", ret="r", rewrites=[STATE], ensures=[("C04-C06-is-finished", "r == self.state.state.finished()")]),
+    Fn("src/progress_bar.rs", "ProgressBar", "position", ret="r", rewrites=[STATE], ensures=[("C07-position-getter", "r == self.state.state.pos.pos@")]),
+    Fn("src/progress_bar.rs", "ProgressBar", "length", ret="r", rewrites=[STATE], ensures=[("C07-length-getter", "r == self.state.state.len")]),
+]
